@@ -243,15 +243,18 @@ def rand_size(rng):
     return 10 ** rng.uniform(math.log10(0.2), 2.0)
 
 
+SIZE_MIN = 0.01
+
+
 def tri_ok(t):
     e = [math.dist(t[0], t[1]), math.dist(t[1], t[2]), math.dist(t[2], t[0])]
-    if min(e) < 0.2 or max(e) > 100.0:
+    if min(e) < SIZE_MIN or max(e) > 100.0:
         return False
     ab = [t[1][i] - t[0][i] for i in range(3)]
     ac = [t[2][i] - t[0][i] for i in range(3)]
     cr = cross(ab, ac)
     area2 = math.sqrt(sum(x * x for x in cr))
-    return area2 / max(e) >= 0.2          # smallest altitude >= 0.2
+    return area2 / max(e) >= 0.2 * min(1.0, max(e))          # not a sliver: smallest altitude >= 0.2 * min(1, longest edge)
 
 
 def gen_prim(rng, kind, mode, c, m=None, size=None):
@@ -261,7 +264,9 @@ def gen_prim(rng, kind, mode, c, m=None, size=None):
     lat = mode == "lattice"
     if m is None:
         m = lattice_rot(rng) if lat else random_rot(rng)
-    if lat:
+    if mode == "small":
+        sz = lambda: 10 ** rng.uniform(-2.0, math.log10(0.2)) * 1.0001
+    elif lat:
         sz = lambda: rng.choice(LAT_SIZES)
     elif size:
         sz = lambda: min(100.0, max(0.2, size * 10 ** rng.uniform(-0.5, 0.5)))
@@ -383,7 +388,7 @@ def translate(p, t):
 
 def in_domain(A, B):
     for p in (A, B):
-        if any(not (0.2 <= s <= 100.0) for s in feature_sizes(p)):
+        if any(not (SIZE_MIN <= s <= 100.0) for s in feature_sizes(p)):
             return False
         if p["kind"] == "triangle" and not tri_ok(p["pts"]):
             return False
@@ -400,6 +405,108 @@ def in_domain(A, B):
     return True
 
 
+PLANAR = {"plane", "triangle", "rectangle", "disk", "circle"}
+AXIAL = {"circle", "disk", "cylinder", "plane"}
+BASE_MIX = ["random", "random", "far", "lattice", "lattice", "lattice", "touch", "touch", "same", "rotlat", "shallow", "small"]
+
+
+def stream_mix(ka, kb):
+    """streams applicable to the pair of kinds; the structural streams get more weight where they apply"""
+    mix = list(BASE_MIX)
+    if kb in PLANAR and ka in ("point", "line", "line_segment", "triangle", "rectangle", "disk"):
+        mix += ["coplanar"] * 3
+    if kb in AXIAL and ka in ("point", "line", "line_segment"):
+        mix += ["axis"] * 2
+    if ka == "line_segment" or kb == "line_segment" or "triangle" in (ka, kb):
+        mix += ["small"]
+    return mix
+
+
+def plane_frame(B):
+    """(origin, unit normal, two in-plane unit vectors, characteristic size) of a planar / axial primitive"""
+    k = B["kind"]
+    if k == "triangle":
+        a, b, c = B["pts"]
+        n = unit(cross([b[i] - a[i] for i in range(3)], [c[i] - a[i] for i in range(3)]))
+        size = max(feature_sizes(B))
+        org = centre(B)
+    elif k == "rectangle":
+        n = unit(cross(B["axes"][0], B["axes"][1]))
+        size = max(B["lengths"])
+        org = list(B["c"])
+    elif k in ("disk", "circle"):
+        n, size, org = list(B["n"]), B["r"], list(B["c"])
+    elif k == "plane":
+        n, size, org = list(B["n"]), 1.0, list(B["p"])
+    elif k == "cylinder":
+        P = B["pose"]
+        n, size, org = [P[i][2] for i in range(3)], max(B["r"], B["l"]), [P[i][3] for i in range(3)]
+    else:
+        return None
+    if k == "rectangle":
+        u, v = list(B["axes"][0]), list(B["axes"][1])
+    else:
+        u = unit(cross(n, [1.0, 0.0, 0.0]) if abs(n[0]) < 0.9 else cross(n, [0.0, 1.0, 0.0]))
+        v = cross(n, u)
+    return list(org), n, u, v, size
+
+
+def in_plane_prim(rng, ka, B, lattice=False):
+    """primitive of kind ka lying in the plane of the planar primitive B, placed around B"""
+    fr = plane_frame(B)
+    if fr is None:
+        return None
+    org, n, u, v, size = fr
+    grid = [-1.5, -1.0, -0.75, -0.5, -0.25, 0.0, 0.25, 0.5, 0.75, 1.0, 1.5]
+    co = (lambda: rng.choice(grid) * size) if lattice else (lambda: rng.uniform(-1.6, 1.6) * size)
+    pt = lambda: [org[i] + a * u[i] + b * v[i] for (a, b) in [(co(), co())] for i in range(3)]
+    def P():
+        a, b = co(), co()
+        return [org[i] + a * u[i] + b * v[i] for i in range(3)]
+    if ka == "point":
+        return dict(kind="point", p=P())
+    if ka == "line":
+        p, q = P(), P()
+        d = [q[i] - p[i] for i in range(3)]
+        if sum(x * x for x in d) < 1e-6:
+            return None
+        return dict(kind="line", p=p, d=unit(d))
+    if ka == "line_segment":
+        return dict(kind="line_segment", s=P(), e=P())
+    if ka == "triangle":
+        return dict(kind="triangle", pts=[P(), P(), P()])
+    if ka == "rectangle":
+        c = P()
+        th = rng.choice([0.0, math.pi / 4, math.pi / 2]) if lattice else rng.uniform(0, math.pi)
+        a0 = [math.cos(th) * u[i] + math.sin(th) * v[i] for i in range(3)]
+        a1 = cross(n, a0)
+        return dict(kind="rectangle", c=c, axes=[unit(a0), unit(a1)], lengths=[abs(co()) + 0.25 * size, abs(co()) + 0.25 * size])
+    if ka == "disk":
+        return dict(kind="disk", c=P(), r=abs(co()) + 0.25 * size, n=list(n))
+    return None
+
+
+def on_axis_prim(rng, ka, B):
+    """point / line / segment lying exactly on the axis (centre + h n) of an axial primitive B"""
+    fr = plane_frame(B)
+    if fr is None:
+        return None
+    org, n, u, v, size = fr
+    hs = [0.0, 0.5 * size, -size, 2.0 * size, rng.uniform(-2, 2) * size]
+    on = lambda h: [org[i] + h * n[i] for i in range(3)]
+    if ka == "point":
+        return dict(kind="point", p=on(rng.choice(hs)))
+    if ka == "line":
+        d = list(n) if rng.random() < 0.7 else unit([n[i] + 0.5 * u[i] for i in range(3)])   # the axis, or a line through the centre
+        return dict(kind="line", p=on(rng.choice(hs[:2])), d=d)
+    if ka == "line_segment":
+        h0, h1 = rng.sample(hs, 2)
+        if abs(h0 - h1) < 0.02:
+            h1 = h0 + size
+        return dict(kind="line_segment", s=on(h0), e=on(h1))
+    return None
+
+
 def gen_pair(rng, fn, stream=None):
     """One input of domain P for function fn.  Streams:
        random   general position, sizes log-uniform, centre offset relative to the sizes
@@ -410,6 +517,12 @@ def gen_pair(rng, fn, stream=None):
        touch    B is moved so that a (special) point of B coincides with a (special) point of A
        same     both primitives share the reference point and the frame (coincident / nested)
        rotlat   a lattice placement moved by one random rigid motion (nearly degenerate in float)
+       small    sizes log-uniform in [0.01, 0.2] (short segments, tiny triangles ...), general position, centre
+                offsets of the order of the sizes
+       coplanar B is planar (plane, triangle, rectangle, disk, circle): A is built INSIDE B's plane from
+                in-plane points around B (segments / lines cutting corners, passing by, ending inside ...)
+       axis     B has an axis (circle, disk, cylinder, plane normal): the point / line / segment lies exactly
+                on that axis (point = centre + h n, line = axis, segment on the axis), random oblique frame
        shallow  a lattice / coincident placement in which B is then turned by a tiny angle
                 (1e-7 .. 5e-3 rad) about a random axis through its reference point, or (point_to_X)
                 the point is a special point of B / a point of B's axis moved by a tiny offset:
@@ -417,8 +530,7 @@ def gen_pair(rng, fn, stream=None):
     """
     ka, kb = kinds_of(fn)
     if stream is None:
-        stream = rng.choice(["random", "random", "far", "lattice", "lattice", "lattice", "touch", "touch", "same", "rotlat",
-                             "shallow"])
+        stream = rng.choice(stream_mix(ka, kb))
     for _ in range(100):
         if stream in ("random", "far"):
             s = rand_size(rng)
@@ -451,6 +563,27 @@ def gen_pair(rng, fn, stream=None):
                 Rm = random_rot(rng)
                 t = [rng.uniform(-5, 5) for _ in range(3)]
                 A, B = rigid(A, Rm, t), rigid(B, Rm, t)
+        elif stream == "small":
+            s0 = 10 ** rng.uniform(-2.0, math.log10(0.2))
+            o = [rng.uniform(-1, 1) for _ in range(3)]
+            A = gen_prim(rng, ka, "small", o)
+            dirv = unit([rng.gauss(0, 1) for _ in range(3)])
+            off = s0 * 10 ** rng.uniform(-1, 0.7)
+            B = gen_prim(rng, kb, "small", [o[i] + off * dirv[i] for i in range(3)])
+        elif stream == "coplanar":
+            mode = rng.choice(["lattice", "random"])
+            o = [rng.choice([0.0, 1.0, -2.0]) for _ in range(3)] if mode == "lattice" else [rng.uniform(-5, 5) for _ in range(3)]
+            B = gen_prim(rng, kb, mode, o)
+            A = in_plane_prim(rng, ka, B, lattice=(mode == "lattice"))
+            if A is None:
+                continue
+        elif stream == "axis":
+            mode = rng.choice(["lattice", "random", "random"])
+            o = [rng.choice([0.0, 1.0, -2.0]) for _ in range(3)] if mode == "lattice" else [rng.uniform(-5, 5) for _ in range(3)]
+            B = gen_prim(rng, kb, mode, o)
+            A = on_axis_prim(rng, ka, B)
+            if A is None:
+                continue
         elif stream == "shallow":
             o = [rng.choice([0.0, 0.0, 1.0, -2.0]) for _ in range(3)]
             A = gen_prim(rng, ka, "lattice", o)
